@@ -213,6 +213,31 @@ def dynamic_part(res, ctx, names):
                     res.violation('c17-twin-rendering', f'{base}: {a} vs {name}: {b} on start={[hex(x) for x in start]} '
                                   f'end={[hex(x) for x in end]}', {'name': name, 'start': start, 'end': end})
                     break
+        # the call reported by ONE record (qualifier START|END at once, or none at all - what a tracepoint filtered down
+        # to its completion, or a capture tool that merges the pair, leaves): it takes another route to the decoder, and
+        # both twins take it alike
+        for q in (3, 0):
+            for k in range(ctx.pick(6, 200)):
+                words = domain.gen_words(rng, base, 'S')
+                if k % 2:
+                    words[0] = rng.choice((0, 0, 2, 4, 35))
+                outcome = []
+                for nm in (base, name):
+                    parser = ev.new_parser()
+                    try:
+                        t = parser.feed(ev.mk(1000, nm, q, words, 6))
+                        outcome.append(('ok', [str(t)] if t is not None else []))
+                    except Exception as x:
+                        outcome.append(('raised', type(x).__name__))
+                res.case((name, 'lone record', q, tuple(words)))
+                res.count('twin_lone_record_renderings_compared')
+                a, b = outcome
+                same = (a[0] == b[0] == 'raised' and a[1] == b[1]) or \
+                       (a[0] == b[0] == 'ok' and len(a[1]) == len(b[1]) == 1 and twin_texts_agree(a[1][0], b[1][0]))
+                if not same:
+                    res.violation('c17-twin-rendering', f'{base} / {name} reported by one record with qualifier {q} and words '
+                                  f'{[hex(x) for x in words]}: {a} vs {b}', {'name': name, 'start': words, 'end': words})
+                    break
         # words outside the enum a decoder names: whatever happens must happen to both twins alike (the same exception,
         # or renderings that differ by the suffix only)
         for idx2, allowed in domain.enum_positions(base).items():
